@@ -213,6 +213,34 @@ func checkC02(P *Prog, r *Result) {
 
 	// ---- nil-iff-empty ----
 	P.checkNilIffEmpty(r)
+	// ---- a failure is never swallowed by a flag left behind, nor suppressed by an unrelated earlier issue ----
+	ca := P.newCatchAnalysis()
+	sites := P.allDispatchSites(ca)
+	names := siteNames(sites)
+	for i, s := range sites {
+		if len(s.dirty) > 0 {
+			r.bad("C02/not-swallowed", names[i], P.ipos(s.at), "the child's issues can be swallowed: "+flagNames(s.dirty)+" may still be set on the context it receives")
+		} else {
+			r.ok("C02/not-swallowed", names[i], P.ipos(s.at), "child context catch-clean")
+		}
+	}
+	cntU := map[string]int{}
+	for _, s := range P.ownUseSites(ca) {
+		top := s.at.Parent()
+		for top.Parent() != nil {
+			top = top.Parent()
+		}
+		k := fname(top) + "#" + s.kind
+		cntU[k]++
+		c := fmt.Sprintf("%s@%d", k, cntU[k])
+		if len(s.dirty) > 0 {
+			r.bad("C02/not-swallowed", c, P.ipos(s.at), "the node's own issue can be swallowed: "+flagNames(s.dirty)+" may still be set on its context")
+		} else {
+			r.ok("C02/not-swallowed", c, P.ipos(s.at), "own context catch-clean")
+		}
+	}
+	r.floor("C02/not-swallowed", 50)
+	P.checkIssueContainerReads(r, "C02/no-global-gating")
 }
 
 func (P *Prog) checkNilIffEmpty(r *Result) {
